@@ -372,7 +372,9 @@ func intsStr(v []int) []string {
 }
 
 // Accepted: the Action of the single command ran once and Run returned nil
-func (o *Obs) Accepted() bool { return o.Ran == 1 && o.Err == nil && o.Pan == nil && o.SpecErr == nil && o.Exit == nil }
+func (o *Obs) Accepted() bool {
+	return o.Ran == 1 && o.Err == nil && o.Pan == nil && o.SpecErr == nil && o.Exit == nil
+}
 
 // OutcomeKey summarises an observation of a single-command app for metamorphic comparison
 func OutcomeKey(p *Prog, o *Obs) string {
